@@ -131,6 +131,11 @@ AccessEvents(s) ==
      \cup { Rec("get_labels", 0, 0, FALSE, <<>>, 0, ""), Rec("pointer_destinations", 0, 0, FALSE, <<>>, 0, "") }
      \cup { Rec("find_label", 0, 0, FALSE, nm, 0, "") : nm \in {StrL, StrM, StrA} }
      \cup { Rec("equal_regions", a, k, FALSE, <<>>, b, "") : a \in {0, 4}, b \in {0, 4, 8}, k \in {0, 4, 5, 8} }
+     \* the Endian codec (stateless: emitted from the empty archives only)
+     \cup (IF n # 0 THEN {} ELSE
+            UNION { { Rec("endian_encode", 0, w, FALSE, td[2], 0, td[1]) : td \in TypedDigits(w) } : w \in {2, 4} }
+            \cup UNION { { Rec("endian_decode", 0, w, FALSE, b, 0, ty) : ty \in Types(w),
+                             b \in Digits(w) \cup { <<>>, <<1>>, <<1, 2, 3>>, <<1, 2, 3, 4, 5>> } } : w \in {2, 4} })
 
 Events(s) == IF Focus = "c04" THEN AccessEvents(s) ELSE StructEvents(s) \cup AnnotEvents(s)
 
